@@ -22,6 +22,7 @@ RULE_TEXT = (
     "C16.b nop: re.match(pattern, substituted text, IGNORECASE); match => only SUCCESS_NOP reaches the engine, no "
     "parse; no match => normal path; C16.c the module-level status statement the nop path executes is never stored "
     "through by any stage on any statement-kind trace (it stays the plain one-row status query)."
+    " C16.a also: the caller's text reaches sqlglot.parse(read=snowflake) unmodified."
 )
 TRUSTED = ["CPython ast", "sqlglot.parse splits at statement boundaries and yields Semicolon nodes for comment-only parts"]
 
